@@ -1,7 +1,8 @@
 """C16 — ref backends obey one contract; the files backend matches git's own view;
 check_ref_format agrees with git check-ref-format on every byte string.
 
-Model: lean/DulwichModel/Model/{RefFormat,Refs,PackedRefs}.lean; theorems: Props/C16.lean.
+Model: lean/DulwichModel/Model/{RefFormat,Refs,PackedRefs}.lean (the code after the C16 fix series; the model of
+the code before it is kept in Model/RefsOld.lean for the regression witnesses); theorems: Props/C16.lean.
 Tie: translate() regenerates Gen/Refs.lean (the sequence of tests of check_ref_format, BAD_REF_CHARS,
 SYMREF, the _check_refname constants, the symref depth limit, the packed-refs header ...); run() drives
 the correspondence streams (model vs Dict/Disk/Reftable/Namespaced containers, model vs check_ref_format)
@@ -814,6 +815,12 @@ class Target:
         if b in ("nsdisk", "nsdict"):
             view, outside = {}, {}
             for k, v in raw.items():
+                if v.startswith(SYM):
+                    # a symref set through the namespace is stored with the prefixed target; in the view it
+                    # points at the name it was given (a target outside the namespace stays as it is)
+                    t = v[len(SYM):]
+                    if t.startswith(NS_PREFIX):
+                        v = SYM + t[len(NS_PREFIX):]
                 if k == HEAD or not k.startswith(b"refs/"):
                     view[k] = v
                 elif k.startswith(NS_PREFIX):
@@ -844,6 +851,8 @@ def supported(backend: str, op) -> bool:
             return False
         if k in ("S", "I", "A") and op[-1].startswith(SYM):
             return False
+        if k in ("S", "R") and op[2] is not None and op[2].startswith(SYM):
+            return False                 # old_ref is documented as a sha; a raw `ref: x` is not translated either
     if backend in ("dict", "nsdict"):
         return k not in ("K", "E")
     if backend == "reftable":
